@@ -162,6 +162,7 @@ def play(hspec):
             recs.append((k, st, real, exp))
         else:
             h.do(st)
+    h.recheck_tables()
     return h, recs
 
 
@@ -213,8 +214,10 @@ def shrink_history(hspec, drv, kind, key):
 
     def used(c):
         return {st[2] for st in c['steps'] if st[0] in ('reg', 'regc', 'del')}
+    import time
+    deadline = time.time() + 25          # a shrunk input is a convenience: never spend minutes on it
     changed = True
-    while changed:
+    while changed and time.time() < deadline:
         changed = False
         cands = []
         steps = hspec['steps']
@@ -256,6 +259,8 @@ def shrink_history(hspec, drv, kind, key):
                 del c['defs'][f]['params'][pi]
                 cands.append(c)
         for c in cands:
+            if time.time() > deadline:
+                break
             if fails(c):
                 hspec = c
                 changed = True
@@ -348,8 +353,10 @@ def shrink(case, drv, kind, key):
         except Exception:
             return False
         return any(f[0] == kind and f[1] == key for f in fs)
+    import time
+    deadline = time.time() + 25          # a shrunk input is a convenience: never spend minutes on it
     changed = True
-    while changed:
+    while changed and time.time() < deadline:
         changed = False
         cands = []
         for li, layer in enumerate(case['layers']):
@@ -377,6 +384,8 @@ def shrink(case, drv, kind, key):
             del c['call']['kw'][ki]
             cands.append(c)
         for c in cands:
+            if time.time() > deadline:
+                break
             if fails(c):
                 case = c
                 changed = True
@@ -488,7 +497,7 @@ def run(env, res):
                         fs2, _, _ = run_case(small, drv)
                         msg2 = next((m for k, ky, m in fs2 if k == kind and ky == key), msg)
                         res.fail(kind, key, msg2, small)
-                    else:
+                    elif len(res.failures) < 10:
                         res.fail(kind, key, msg, case)
         del batch[:]
 
@@ -537,7 +546,7 @@ def run(env, res):
                     fs2, _ = run_history(small, drv)
                     msg2 = next((m for k, ky, m in fs2 if k == kind and ky == key), msg)
                     res.fail(kind, key, msg2, small)
-                else:
+                elif len(res.failures) < 16:
                     res.fail(kind, key, msg, hspec)
         del hbatch[:]
 
